@@ -11,6 +11,8 @@ from vf.rp66 import tokens as tk
 from vf.stubs.lenstr import LenStr
 
 REJECT = (ValueError, RuntimeError, TypeError)
+from dliswriter.utils.enums import Unit as _Unit
+UNIT_METER = _Unit('m')
 
 
 def name_matches(t, item):
@@ -57,6 +59,11 @@ def item_check(si, mult, named, with_units, two, x, s, arm):
         other = make_item(S, 'OBJ', parent=parent, origin=1) if two else None     # same name: copy number 1
         a = getattr(it, an)
         kind = kind_of(a)
+    units_only = mult == 5                # units given, value never assigned: must be written as absent
+    if units_only:
+        if not (with_units and a._units_settable):
+            return 0
+        mult = 1
     pv = py_values(a, kind, mult, x, s, arm)
     if pv is None:
         return 0
@@ -64,9 +71,10 @@ def item_check(si, mult, named, with_units, two, x, s, arm):
     if an == 'long_name' and kind == 'refortext' and arm and len(s) == 0:
         return 0                          # an empty long name counts as "not specified": the documented default applies
     try:
-        a.value = assign
+        if not units_only:
+            a.value = assign
         if with_units and a._units_settable:
-            a.units = 'm'
+            a.units = UNIT_METER if arm else 'm'          # the documented forms: enumeration member or its text
         body = parent._make_body_bytes()
     except REJECT:
         return 0                          # rejected specifications are not C04's subject (C12/C20)
@@ -98,6 +106,8 @@ def item_check(si, mult, named, with_units, two, x, s, arm):
     if j >= len(attrs):
         return 8                          # the assigned attribute was dropped
     pa = attrs[j]
+    if units_only:
+        return 0 if (pa.absent or (pa.count == 0 and not pa.has_value)) else 17
     n = len(expect)
     if n == 0:
         # an empty list: absent, or count 0 without a value - never "a value is there" without values
@@ -131,7 +141,7 @@ def item_check(si, mult, named, with_units, two, x, s, arm):
 def ob_item(si: int, mult: int, with_units: bool, x: int, s: str, arm: bool) -> int:
     """
     pre: 0 <= si < N_SITES and si % SHARD_N == SHARD_I
-    pre: 0 <= mult <= 4
+    pre: 0 <= mult <= 5
     pre: len(s) <= 2 and s.isascii()
     post: _ == 0
     """
@@ -141,7 +151,7 @@ def ob_item(si: int, mult: int, with_units: bool, x: int, s: str, arm: bool) -> 
 def reach_item(si: int, mult: int, with_units: bool, x: int, s: str, arm: bool) -> int:
     """
     pre: 0 <= si < N_SITES and si % SHARD_N == SHARD_I
-    pre: 0 <= mult <= 4
+    pre: 0 <= mult <= 5
     pre: len(s) <= 2 and s.isascii()
     post: _ != 0
     """
